@@ -155,6 +155,7 @@ func genMulti(e *env, r *hx.Rng) mSpec {
 				t.samples = append(t.samples, frame(genVideoSampleCenc(r, t.codec, 0)))
 			}
 		}
+		t.samples = withEmptySamples(r, t.codec, t.samples)
 		m := r.Pick(1, 1, 2, 3)
 		if m > ns {
 			m = ns
@@ -206,6 +207,7 @@ func genMulti(e *env, r *hx.Rng) mSpec {
 				t.samples = append(t.samples, frame(genVideoSampleCenc(r, t.codec, 0)))
 			}
 		}
+		t.samples = withEmptySamples(r, t.codec, t.samples)
 		t.split = []int{ns}
 		t.trunPlace = t.trunPlace[:1]
 		if t.scheme == "cenc" {
